@@ -108,6 +108,8 @@ void hazard_eras<Traits>::guard_ptr<T, MarkedPtr>::acquire(const concurrent_ptr<
       }
       he->release_guard();
       he = nullptr;
+      // alloc_hazard_era can throw - the guard must not keep a pointer it no longer protects
+      this->ptr.reset();
     }
     assert(he == nullptr);
     he = local_thread_data().alloc_hazard_era(era);
@@ -142,7 +144,9 @@ bool hazard_eras<Traits>::guard_ptr<T, MarkedPtr>::acquire_if_equal(const concur
     if (he != nullptr) {
       he->release_guard();
       // alloc_hazard_era can throw - make sure we do not release the guard a second time in that case
+      // and that the guard does not keep a pointer it no longer protects
       he = nullptr;
+      this->ptr.reset();
     }
 
     he = local_thread_data().alloc_hazard_era(era);
